@@ -4,6 +4,7 @@ import common as C
 import progs
 
 LEVEL = "proof"
+BIDI_CHARS = "\u202a\u202b\u202c\u202d\u202e\u2066\u2067\u2068\u2069\u200f"
 
 MULTILINE = [
     "import subprocess\nresult = subprocess.Popen(\n    cmd,\n    shell=True,\n)\n",
@@ -74,6 +75,9 @@ def run(res, ctx):
                 "comment) x k in {1,3}: findings of the edited program = findings of the original with every location at or below the insertion point shifted by k and ranges mapped as intervals "
                 "(real bandit vs that expectation and vs the Lean model); non-trivial = distinct (program, insertion) whose original has at least one finding")
     programs = list(MULTILINE)
+    # B613 findings behind characters that str.splitlines() treats as line ends but Python's parser does not (seeded change C10-m2)
+    programs += ["import os\n\x0c\ndef f():\n    os.system(cmd)  # \u202e hidden\n", "s = 'a\u2028b\x0bc\x1cd\x85e'\nt = 1  # \u2067 x\nimport pickle\n",
+                 "# first \u202d\nimport subprocess\nsubprocess.Popen(c,\n    shell=True)\n", "x = 1\n\x0c\n\x0c\ny = '\u2066'"]
     for _ in range(12 if thorough else 4):
         programs.append(progs.make_program(rng)[0])
     scratch = C.Scratch()
@@ -100,7 +104,12 @@ def run(res, ctx):
                     probs.append("line not in its range")
                 if lr != list(range(lr[0], lr[-1] + 1)):
                     probs.append("range not a contiguous ascending run")
-                if not belongs_to_construct(lr[0], lr[-1], r.lineno, spans, stmts):
+                if r.test_id == "B613":
+                    if not (1 <= r.lineno <= nlines and any(ch in flines[r.lineno - 1] for ch in BIDI_CHARS)):
+                        probs.append("flagged line holds no bidirectional control character")
+                    if lr != [r.lineno]:
+                        probs.append("B613 range is not the flagged line")
+                elif not belongs_to_construct(lr[0], lr[-1], r.lineno, spans, stmts):
                     probs.append("range does not belong to the flagged construct")
                 for n in (0, 1, 2, 3, 5, 10):
                     code = r.get_code(n)
